@@ -39,7 +39,76 @@ def gen_walk(rng, n):
     return walk
 
 
+# ---- sessions of thousands of operations (see workloads.deep_scenario): stdout is counted, not recorded, so the
+# marker is read from the probe - curr_op_seq, the index at which `print` draws its arrow (which the ordinary cases
+# verify against the printed listing after every command) - and compared with the entry of the operation at the
+# program counter.
+DEEP = {"quick": 4, "thorough": 40}
+
+
+def deep_index(idx, tier):
+    return idx // 25 if (idx % 25 == 0 and idx // 25 < DEEP[tier]) else None
+
+
+def deep_case(rng):
+    scn = workloads.deep_scenario(rng)
+    d = scn["deep_depth"]
+    r = d - rng.range(0, 30) if rng.chance(60) else rng.range(1, 8)
+    scn["walk"] = [["step"]] * d + [["rewind"]] * max(1, r) + [[rng.weighted([(60, "step"), (40, "rewind")])] for _ in range(rng.range(0, 12))]
+    scn["regime"] = "clean"
+    scn["deep"] = True
+    return scn
+
+
+def evaluate_deep(ctx, scn):
+    ev = Eval()
+    secs = expect.sections(scn)
+    lst = expect.Listing(secs)
+    raw = bytes.fromhex(scn["script"])
+    items = [["sync"]] + [list(m) for m in scn["walk"]]
+    w = session.build_world(scn, sched=items, observe=False)
+    run = ctx.run(w)
+    ev.hashes.append(run.hash())
+    ev.counters["term:" + run.classify()[0]] += 1
+    if run.classify()[0] == "overflow" or len(run.segs) < 2:
+        ev.counters["inconclusive_log_overflow"] += 1
+        return ev
+    cmds = session.parse_session(w, run, items)
+    trace = []
+    moves = 0
+    for ci, c in enumerate(cmds):
+        if c.reply is None:
+            break
+        p = c.post
+        if not p or p.get("env") != "ok" or "next" not in p or "curr_op_seq" not in p:
+            continue
+        if p.get("next") == "op":
+            idx = lst.index_for(raw, int(p.get("pc", "-1")))
+            want = set(idx) if idx else "skip"
+            desc = "the operation at byte %s" % p.get("pc")
+        elif p.get("next") in ("finish", "nothing"):
+            want, desc = None, "nothing"
+        else:
+            want = "skip"
+        if want == "skip":
+            continue
+        mk = int(p["curr_op_seq"])
+        moves += 1
+        trace.append((c.kind[0], c.reply[0][0], mk))
+        shown = mk if mk < len(lst.entries) else None
+        if (want is None and shown is not None and p.get("done") != "1") or (want is not None and shown not in want):
+            ev.add(PROP, "marker", "internal:deep", "after command %d (`%s`) the listing position is entry %s but the next step executes %s (entry %s)"
+                   % (ci, c.kind, mk, desc, sorted(want) if want else "-"))
+            break
+    ev.nontrivial = moves > 1000
+    ev.cov = trace[-50:]
+    ev.counters["probe:deep_session_commands"] += len(cmds)
+    return ev
+
+
 def gen(rng, tier, idx):
+    if deep_index(idx, tier) is not None:
+        return deep_case(rng)
     scn = workloads.session_scenario(rng, purpose="listing")
     scn["observe"] = True
     scn["regime"] = "clean" if rng.chance(55) else "fault"
@@ -131,6 +200,8 @@ def expected_marker(lst, probe):
 
 
 def evaluate(ctx, scn):
+    if scn.get("deep"):
+        return evaluate_deep(ctx, scn)
     ev = Eval()
     secs = expect.sections(scn)
     items = [["sync"]] + [list(m) for m in scn["walk"]]
